@@ -71,7 +71,7 @@ Theorem C12_oracle_sorter_is_permutation : forall key l, Permutation l (isort_by
 Proof. exact isort_by_perm. Qed.
 Theorem C12_oracle_grow_ok : forall c n, n <= grow_double c n.
 Proof. intros c n. apply Nat.le_max_l. Qed.
-Print Assumptions C12_oracle_sorter_is_permutation.
+Print Assumptions C12_oracle_sorter_is_permutation. Print Assumptions C12_oracle_grow_ok.
 
 (** documentation: the code before the repair of PushLast ([return append(s, elem)]) violated the
     property — PopLast then PushLast overwrites the source; two PushLast on a value with spare
